@@ -7,7 +7,7 @@ which fields of the `inputs` object are read.
 * `Js` — one syntax tree for expressions and statements of the generated fragment.
 * `listen` — the listener: a pre-order fold over the tree (ANTLR's `ParseTreeWalker` fires `enter…` before
   the children and `exit…` after them; only four `enter` handlers and one `exit` handler exist).
-  Python exceptions of the real listener are results: `attributeError`, `keyError`.
+  The listener raises no exception any more (fix 254d061); the `Except` type is kept, no branch produces an error.
 * `eval` — the evaluator (fuel = recursion depth): lexical scoping through a heap of function frames,
   closures, strict mode (assignment to an undeclared name fails), `return` as an abrupt completion.
 -/
@@ -57,11 +57,12 @@ def Names.add (n : Names) (x : String) : Names :=
   | [] => { n with glob := if n.glob.contains x then n.glob else x :: n.glob }
   | s :: r => { n with inner := (if s.contains x then s else x :: s) :: r }
 
-/-- `delete_name`: `stack[-1].remove(name)` raises `KeyError` when the innermost scope lacks the name -/
+/-- `delete_name`: `stack[-1].discard(name)` — the innermost scope only, no error when the name lives in an outer
+scope (fix 254d061; before it `remove` raised `KeyError`) -/
 def Names.del (n : Names) (x : String) : Except LErr Names :=
   match n.inner with
-  | [] => if n.glob.contains x then .ok { n with glob := n.glob.erase x } else .error .keyError
-  | s :: r => if s.contains x then .ok { n with inner := s.erase x :: r } else .error .keyError
+  | [] => .ok { n with glob := n.glob.erase x }
+  | s :: r => .ok { n with inner := s.erase x :: r }
 
 def Names.push (n : Names) : Names := { n with inner := [] :: n.inner }
 def Names.pop (n : Names) : Names := { n with inner := n.inner.tail }
@@ -102,15 +103,15 @@ def dotKeys (n : Names) (e : Js) (k : String) : List String :=
   | some x => if n.isGlobal x && !isReserved k && k != "" then [k] else []
   | none => []
 
-/-- `enterMemberIndexExpression`: `expr.literal()` fails on anything but a literal, `_get_index(...)` is `None`
-for a literal that is not a string; the empty key is not added -/
+/-- `enterMemberIndexExpression` (after fix 254d061): only a string literal names a field statically; computed and
+numeric indexes are skipped; the empty key is not added -/
 def idxKeys (n : Names) (e i : Js) : Except LErr (List String) :=
   match nameOf e with
   | some x =>
       if n.isGlobal x then
         match i with
         | .str k => .ok (if k != "" then [k] else [])
-        | _ => .error .attributeError
+        | _ => .ok []
       else .ok []
   | none => .ok []
 
